@@ -58,7 +58,11 @@ func New(fun string, matcher matcher.Matcher, outFmt string, cache bool, interva
 	if interval == 0 {
 		return nil, errors.New("aggregation interval must be > 0")
 	}
-	ticker := clock.AlignedTick(time.Duration(interval)*time.Second, time.Duration(wait)*time.Second, 2)
+	period := time.Duration(interval) * time.Second
+	if period <= 0 || period/time.Second != time.Duration(interval) {
+		return nil, errors.New("aggregation interval is too large")
+	}
+	ticker := clock.AlignedTick(period, time.Duration(wait)*time.Second, 2)
 	return NewMocked(fun, matcher, outFmt, cache, interval, wait, dropRaw, out, 2000, time.Now, ticker)
 }
 
